@@ -454,9 +454,14 @@ func c11One(c *Ctx, rng *lab.RNG, cs c11Case) {
 			return false
 		}
 		var got [][]byte
-		for _, off := range b.SliceOffsets() {
-			s, _ := b.Slice(off)
-			got = append(got, append([]byte(nil), s...))
+		if pp := lab.Try(func() {
+			for _, off := range b.SliceOffsets() {
+				s, _ := b.Slice(off)
+				got = append(got, append([]byte(nil), s...))
+			}
+		}); pp != nil {
+			fail("panic-reading-slices-after-sort/"+pp.Short(), "reading the slices back after the sort panicked: "+pp.Msg)
+			return false
 		}
 		if b.IsEmpty() {
 			got = nil
